@@ -25,7 +25,6 @@ import importlib
 import io
 import json
 import os
-import random
 import re
 import shutil
 import sys
@@ -36,19 +35,24 @@ from ..lib.common import Ctx, MachineryError, repo_python_path
 MANIFEST = {
     "engine": "E10b-ClassPath",
     "technique": "Lean 4 proof over a model of the subclass branch of adapt_typehints / adapt_class_type / instantiate_classes (all class "
-                 "environments, all specs) + differential correspondence on generated class families written as real modules + independent "
-                 "reference and constructor-log oracle",
-    "text": "Theorems in lean/Jap/Props/C14.lean prove for every class environment that an accepted value names an import that is a subclass of the "
-            "declared type (or a function returning one) with init_args that are parameters of exactly that class and well typed (C14_checked), that "
-            "a non-subclass, a non-class, a failing import, an unknown, ill-typed or missing required init arg is an error (C14_rejects_*), that "
-            "instantiation logs exactly one constructor call per spec, of exactly the named class with exactly init_args + dict_kwargs, children "
-            "strictly before their parents (C14_built_*), and that the short notations are adapted exactly like the explicit dict (C14_short_*). The "
-            "model is tied to /repo by generating class families as real modules and comparing parse results, error classes and constructor logs of "
-            "the real parser with the model; the property is evaluated on the real code against a reference written from the property statement.",
-    "level_note": "Trusted: Lean kernel; axioms propext/Quot.sound/Classical.choice only; the correspondence harness and generators. Scalar "
-                  "validation is abstract in the model (a literal carries its Python type; conversions are C02). Open finding C14-stale-dict-kwargs "
-                  "(dict_kwargs survive a class change). Outside the model: List/Dict/Union of classes (oracle only), protocols, generics, "
-                  "Callable[..., Base], argument defaults, shortest-import-path search across packages, parameters named like Namespace methods.",
+                 "environments, all specs, all sequences of sources) + regenerated literals and scalar-coercion table + differential correspondence "
+                 "on generated class families written as real packages + independent reference and constructor-log oracle",
+    "text": "Theorems in lean/Jap/Props/C14.lean prove for every class environment that what is stored after any sequence of sources names an import "
+            "that is a subclass of the declared type (or a function returning one) with init_args that are parameters of exactly that class and "
+            "accepted by their types (C14_checked*, C14_discard for class changes, C14_checked_final for defaults), that a failing import, a "
+            "non-class, a non-subclass, an unknown, ill-typed or missing required init arg, and init_args for an abstract type without class are "
+            "errors (C14_rejects_*), that instantiation logs exactly one constructor call per spec, the last one of exactly the named class with "
+            "exactly the init_args keys + dict_kwargs, objects passed from strictly earlier calls (C14_built_*), and that every short notation is "
+            "adapted exactly like the explicit dict (C14_short*). The model is tied to /repo by regenerating the spec keys, the dotted-option roots "
+            "and the live scalar coercion matrix into Gen/ClassPathTables (C14_tables_pinned), and by generating class families as real packages "
+            "(re-exports, duplicate names, abstract bases, factories, **kwargs, nested class parameters) and comparing parse results, error classes "
+            "and constructor logs with the model; the property is evaluated on the real code against a reference written from the property statement.",
+    "level_note": "Trusted: Lean kernel; axioms propext/Quot.sound/Classical.choice only; the extractor; the correspondence harness and generators. "
+                  "Scalar validation is abstract in the model (a literal carries its Python type; accepted pairs pinned by the regenerated table; "
+                  "string-to-number conversions are C02). C14_checked assumes SigDetermined (one signature per class_path; proved for every "
+                  "environment without factory functions). Open finding C14-stale-dict-kwargs (dict_kwargs survive a class change; reproduced by "
+                  "the model, witness theorem). Outside the model: List/Dict/Union of classes (oracle only), protocols, generics, "
+                  "Callable[..., Base], argument defaults, None given for a scalar parameter, parameters named like Namespace methods.",
 }
 
 F_STALE_DK = "C14-stale-dict-kwargs"
@@ -148,7 +152,11 @@ def gen_family(rng):
     # some classes are re-exported by the package: their shortest import path (the normal form of class_path) is shorter
     # than the path of the module that defines them
     reexport = [n for n in ("SubB", "DepB", "Base", "SubKW") if rng.random() < 0.35]
-    return {"classes": classes, "funcs": funcs, "others": ["not_a_class"], "reexport": reexport}
+    # sometimes a second module defines another subclass of Base with the NAME of an existing one: the bare name is ambiguous
+    dup = None
+    if rng.random() < 0.3:
+        dup = {"name": rng.choice(["SubA", "SubB"]), "params": [dict(p) for p in [c for c in classes if c["name"] == "Base"][0]["params"]]}
+    return {"classes": classes, "funcs": funcs, "others": ["not_a_class"], "reexport": reexport, "dup": dup}
 
 
 def ann_src(ty):
@@ -224,10 +232,14 @@ def all_bases(fam, name):
 
 
 def is_sub(fam, a, b):
+    if a.startswith("%"):
+        return a == b or is_sub(fam, "Base", b)
     return a == b or b in all_bases(fam, a)
 
 
 def target_params(fam, target):
+    if target.startswith("%"):
+        return fam["dup"]["params"]
     c = cls_of(fam, target)
     if c:
         return c["params"]
@@ -237,6 +249,8 @@ def target_params(fam, target):
 
 def target_class(fam, target):
     """the class an import yields instances of"""
+    if target.startswith("%"):
+        return target
     if cls_of(fam, target):
         return target
     f = func_of(fam, target)
@@ -271,7 +285,7 @@ def cleanup():
 
 
 def fam_hash(fam):
-    return hashlib.sha256((family_src(fam) + "|" + ",".join(fam.get("reexport", []))).encode()).hexdigest()[:16]
+    return hashlib.sha256((family_src(fam) + "|" + ",".join(fam.get("reexport", [])) + "|" + json.dumps(fam.get("dup"), sort_keys=True)).encode()).hexdigest()[:16]
 
 
 def module_for(fam):
@@ -286,8 +300,21 @@ def module_for(fam):
     with open(os.path.join(d, "__init__.py"), "w") as f:
         for n in fam.get("reexport", []):
             f.write("from .defs import %s\n" % n)
+    dup = fam.get("dup")
+    if dup:
+        with open(os.path.join(d, "defs2.py"), "w") as f:
+            f.write("from typing import Optional, List, Dict, Union\nfrom .defs import Base, LOG\n\n\nclass %s(Base):\n" % dup["name"])
+            names = [p["name"] for p in dup["params"]]
+            f.write("    def __init__(%s):\n" % ", ".join(["self"] + params_src(dup["params"])))
+            f.write("        LOG.append((%r, id(self), dict(%s), {}))\n" % ("defs2." + dup["name"], ", ".join("%s=%s" % (n, n) for n in names)))
+            for n in names:
+                f.write("        self.%s = %s\n" % (n, n))
+            if cls_of(fam, "Base")["abstract"]:
+                f.write("\n    def run(self):\n        return 2\n")
     importlib.invalidate_caches()
     mod = importlib.import_module("c14gen.f_%s.defs" % h)
+    if dup:
+        importlib.import_module("c14gen.f_%s.defs2" % h)
     _PKG["mods"][h] = mod
     return mod
 
@@ -303,6 +330,8 @@ def modname(fam):
 
 def canonical(fam, name):
     """shortest import path of a class / function of the family"""
+    if name.startswith("%") or name.startswith("defs2."):
+        return pkgname(fam) + ".defs2." + name.split(".")[-1].lstrip("%")
     return (pkgname(fam) if name in fam.get("reexport", []) else modname(fam)) + "." + name
 
 
@@ -317,6 +346,8 @@ def full(fam, name):
         return modname(fam) + "." + name[1:]
     if isinstance(name, str) and name.startswith("^"):
         return canonical(fam, name[1:])
+    if isinstance(name, str) and name.startswith("%"):
+        return canonical(fam, name)
     return name
 
 
@@ -369,6 +400,10 @@ class Reject(Exception):
 
 def resolve(fam, T, name):
     """name or '@X' or dotted path -> ('cls'|'func', target) ; raises Reject"""
+    if name.startswith("%"):
+        if fam.get("dup") and fam["dup"]["name"] == name[1:]:
+            return name
+        raise Reject("importFail")
     if name.startswith("@") or name.startswith("^"):
         n = name[1:]
         if cls_of(fam, n):
@@ -381,8 +416,13 @@ def resolve(fam, T, name):
     if "." in name:
         raise Reject("importFail")
     cands = [c["name"] for c in fam["classes"] if c["name"] == name and not c["abstract"] and is_sub(fam, c["name"], T)]
+    dup = fam.get("dup")
+    if dup and dup["name"] == name and is_sub(fam, "Base", T):
+        cands.append("%" + name)
     if len(cands) == 1:
         return cands[0]
+    if len(cands) > 1:
+        raise Reject("ambiguous")
     raise Reject("importFail")
 
 
@@ -394,7 +434,12 @@ def param_of(params, k):
 
 
 def scalar_ok(t, v):
-    return type(v).__name__ == t
+    """the declared type itself, or an int for a float (the adapter converts it)"""
+    return type(v).__name__ == t or (t == "float" and type(v) is int)
+
+
+def scalar_conv(t, v):
+    return float(v) if t == "float" and type(v) is int else v
 
 
 def value_fits(fam, p, v):
@@ -462,7 +507,7 @@ def ref_value(fam, params, k, prev, v):
     if kind == "scalar":
         if isinstance(v, dict) or v is None or not scalar_ok(c, v):
             raise Reject("illTyped")
-        return v
+        return scalar_conv(c, v)
     if kind == "optCls" and v is None:
         return None
     if kind in ("cls", "optCls"):
@@ -487,7 +532,7 @@ def ref_finalize(fam, state):
     for p in target_params(fam, state["t"]):
         if p["name"] in state["ia"]:
             v = state["ia"][p["name"]]
-            out[p["name"]] = ref_finalize(fam, v) if isinstance(v, dict) else v
+            out[p["name"]] = ref_finalize(fam, v) if isinstance(v, dict) else (scalar_conv(p["ty"][1], v) if p["ty"][0] == "scalar" else v)
         elif p["default"] != "REQ":
             out[p["name"]] = p["default"]
         else:
@@ -620,7 +665,8 @@ def real_run(fam, T, argv, twice=True):
             if k == "kwargs":
                 continue
             attrs[k] = {"obj": ids[id(v)]} if id(v) in ids and not isinstance(v, (int, str, float, bool, type(None))) else {"lit": lit(v)}
-        runs.append({"ctors": ctors, "type": canonical(fam, type(obj).__name__), "attrs": attrs, "root_id": id(obj), "root": obj})
+        tname = ("defs2." if type(obj).__module__.endswith(".defs2") else "") + type(obj).__name__
+        runs.append({"ctors": ctors, "type": canonical(fam, tname), "attrs": attrs, "root_id": id(obj), "root": obj})
     out["ctors"] = runs[0]["ctors"]
     out["type"] = runs[0]["type"]
     out["attrs"] = runs[0]["attrs"]
@@ -654,6 +700,12 @@ def wire_env(fam):
     for c in classes:
         for path in sorted({m + "." + c["name"], canonical(fam, c["name"])}):
             env["imports"].append([path, {"k": "cls", "path": canonical(fam, c["name"])}])
+    dup = fam.get("dup")
+    if dup:
+        path = canonical(fam, "%" + dup["name"])
+        env["classes"].append({"path": path, "name": dup["name"], "abstract": False, "params": [wire_param(fam, p) for p in dup["params"]]})
+        env["edges"].append([path, canonical(fam, "Base")])
+        env["imports"].append([path, {"k": "cls", "path": path}])
     for f in fam["funcs"]:
         env["imports"].append([m + "." + f["name"], {"k": "func", "path": m + "." + f["name"], "ret": canonical(fam, f["ret"]),
                                                      "params": [wire_param(fam, p) for p in f["params"]]}])
@@ -673,8 +725,6 @@ def wire_raw(fam, raw):
         return {"spec": {"cp": full(fam, raw["cp"]) if raw.get("cp") is not None else None,
                          "ia": [[k, wire_raw(fam, v)] for k, v in (raw.get("ia") or {}).items()],
                          "dk": [[k, wire_raw(fam, v)] for k, v in (raw.get("dk") or {}).items()]}}
-    if isinstance(raw, str) and False:
-        return None
     return {"lit": lit(raw)}
 
 
@@ -705,6 +755,8 @@ def model_ctors(m):
 def acceptable(fam, T):
     out = [c["name"] for c in fam["classes"] if is_sub(fam, c["name"], T) and not c["abstract"] and model_ok_params(c["params"])]
     out += [f["name"] for f in fam["funcs"] if is_sub(fam, f["ret"], T)]
+    if fam.get("dup") and is_sub(fam, "Base", T):
+        out.append("%" + fam["dup"]["name"])
     return out
 
 
@@ -728,7 +780,10 @@ def gen_ia(rng, fam, target, depth=0, all_required=True):
 def name_notation(rng, fam, T, target):
     """a string that names the target: bare class name (classes only, concrete) or full path"""
     r = rng.random()
-    if cls_of(fam, target) and r < 0.45:
+    if target.startswith("%"):
+        return target
+    ambiguous = fam.get("dup") and fam["dup"]["name"] == target and is_sub(fam, "Base", T)
+    if cls_of(fam, target) and r < 0.45 and not ambiguous:
         return target
     if cls_of(fam, target) and r < 0.65:
         return "^" + target
@@ -845,16 +900,18 @@ def inject_fault(rng, fam, T, state, fault):
         return {"form": "value", "raw": {"cp": name_notation(rng, fam, T, target), "ia": ia, "dk": None}, "via": via}
     if fault == "abstract-bare":
         return {"form": "value", "raw": {"bare": {}}, "via": via}
+    if fault == "ambiguous-name":
+        if not (fam.get("dup") and is_sub(fam, "Base", T)):
+            return None
+        return {"form": "value", "raw": {"name": fam["dup"]["name"]}, "via": via}
     return None
 
 
-FAULTS = ["wrong-class", "non-class", "missing-import", "unknown-key", "ill-typed", "missing-required", "abstract-bare"]
+FAULTS = ["wrong-class", "non-class", "missing-import", "unknown-key", "ill-typed", "missing-required", "abstract-bare", "ambiguous-name"]
 
 
 def has_dk_before_change(fam, T, sources):
     """finding class: a source with dict_kwargs followed by a class change (at any nesting level)"""
-    def walk(state, depth=0):
-        return state
     state = None
     had_dk = False
     try:
@@ -1031,7 +1088,7 @@ def run_cases(ctx: Ctx, cases, origin):
 
 def metamorphic(ctx: Ctx, fam, T, rng):
     """short notations of one valid explicit spec parse to the same configuration"""
-    target = rng.choice([t for t in acceptable(fam, T) if cls_of(fam, t)] or [None])
+    target = rng.choice([t for t in acceptable(fam, T) if cls_of(fam, t) and not (fam.get("dup") and fam["dup"]["name"] == t)] or [None])
     if target is None:
         return
     ia = {k: v for k, v in gen_ia(rng, fam, target).items() if not isinstance(v, dict)}
@@ -1154,13 +1211,13 @@ def run(ctx: Ctx):
         "sequences in which a source with dict_kwargs is followed by a class change are generated only as witnesses of the open finding",
         "List/Dict/Union-of-class parameters are checked by the oracle only; argument defaults, protocols, generics, Callable[..., Base] are outside",
     ]
-    ctx.lean_build()
+    ctx.lean_build(extractors=["classpath_tables"])
     try:
         from ..lib import corpus as corpus_mod
 
         corpus_cases = [(c["family"], c["declared"], c["sources"]) for c in corpus_mod.load(ctx.prop) if "sources" in c]
         bad = run_cases(ctx, corpus_cases, "corpus")
-        n_fam = ctx.budget(14, 140) * (2 if ctx.search_boost > 1 else 1)
+        n_fam = ctx.budget(40, 450) * (2 if ctx.search_boost > 1 else 1)
         cases = []
         fams = []
         for _ in range(n_fam):
@@ -1223,11 +1280,7 @@ def replay(ctx: Ctx, body):
             print("variant :", build_argv(fam, rp["variant"]), "->", json.dumps(b.get("cfg"))[:400])
             return 1 if (a["kind"], a.get("cfg")) != (b["kind"], b.get("cfg")) else 0
         if rp.get("kind") == "container":
-            c = Ctx(ctx.prop, ctx.tier, ctx.seed)
-            # re-run through the same code path
-            ia = rp["value"]["init_args"]
             print("value:", json.dumps(rp["value"])[:600])
-            n0 = len(c.violations)
             from jsonargparse import ArgumentError, ArgumentParser
 
             mod = module_for(rp["family"])
